@@ -30,7 +30,7 @@ def oracle_certificate(rng, d):
     m, n = d['m'], d['n']
     if m < 2:
         return None
-    with warnings.catch_warnings():
+    with warnings.catch_warnings(), sagecorr.adversarial_globals(d['settings']):
         warnings.simplefilter('ignore')
         obj = float(rng.choice([1, -1])) * cv[0] + float(rng.choice([1, -1, 0])) * cv[1] + float(rng.choice([1, 0])) * cv[2]
         prob = cl.Problem(cl.MIN, obj, [con, cv <= 4, cv >= -4])
@@ -47,20 +47,22 @@ def oracle_certificate(rng, d):
             return 'AGE vector %d has a negative entry off its own index: %s' % (i, a.tolist())
     if np.any(tot > c + 1e-5 * (1 + np.abs(c))):
         return 'AGE vectors sum to %s which exceeds c = %s' % (tot.tolist(), c.tolist())
-    worst = None
+    # "up to solver tolerance": the solver meets the conic rows to ~1e-8 in the COEFFICIENTS, so a coefficient of size
+    # 1e-6 * (1 + |c|_inf) is indistinguishable from 0; the value tolerance at x is that times sum_j exp(alpha_j . x)
+    ctol = 1e-6 * (1 + float(np.max(np.abs(c))))
     for _ in range(60):
-        x, w = sagecorr.sample_domain_point(rng, n, d['kind'])
+        x, w = sagecorr.sample_domain_point(rng, n, d['kind'], d['X'])
         if x is None:
             break
         ex = np.exp(d['alpha_np'] @ np.array(x))
         for i, av in con.age_vectors.items():
             a = np.asarray(av.value, dtype=float)
             fv = float(a @ ex)
-            if fv < -1e-4 * (1 + float(np.abs(a) @ ex)):
-                return 'AGE signomial %d is negative (%g) at the point %s of X' % (i, fv, x)
+            if fv < -(ctol * float(np.sum(ex)) + 1e-6 * float(np.abs(a) @ ex)):
+                return 'AGE signomial %d (coefficients %s) is negative (%g) at the point %s of X' % (i, a.tolist(), fv, x)
         fv = float(c @ ex)
-        if fv < -1e-4 * (1 + float(np.abs(c) @ ex)):
-            return 'signomial with the constrained coefficients is negative (%g) at the point %s of X' % (fv, x)
+        if fv < -(ctol * float(np.sum(ex)) + 1e-6 * float(np.abs(c) @ ex)):
+            return 'signomial with the constrained coefficients %s is negative (%g) at the point %s of X' % (c.tolist(), fv, x)
     return None
 
 
